@@ -104,6 +104,13 @@ func (p Prefix) Match(key string, match *PrefixMatch) (ok bool) {
 	//	 $ aws s3 ls s3://my-bucket/AWSLogs/2608
 	//	                            PRE 260839334643/
 
+	if len(p.Delimiter) > 1 {
+		// strings.TrimLeft below takes its second argument as a set of
+		// characters, which is only the same thing for a delimiter of one
+		// character:
+		return p.matchLongDelimiter(key, match)
+	}
+
 	keyParts := strings.Split(strings.TrimLeft(key, p.Delimiter), p.Delimiter)
 	preParts := strings.Split(strings.TrimLeft(p.Prefix, p.Delimiter), p.Delimiter)
 
@@ -140,6 +147,32 @@ func (p Prefix) Match(key string, match *PrefixMatch) (ok bool) {
 	out := strings.Join(keyParts[:matched], p.Delimiter)
 	if appendDelim {
 		out += p.Delimiter
+	}
+
+	if match != nil {
+		*match = PrefixMatch{Key: key, CommonPrefix: out != key, MatchedPart: out}
+	}
+	return true
+}
+
+// matchLongDelimiter is Match for a delimiter of more than one character.
+// Like Match it ignores delimiters at the start of the key and of the prefix.
+func (p Prefix) matchLongDelimiter(key string, match *PrefixMatch) (ok bool) {
+	trimmed, prefix := key, p.Prefix
+	for strings.HasPrefix(trimmed, p.Delimiter) {
+		trimmed = trimmed[len(p.Delimiter):]
+	}
+	for strings.HasPrefix(prefix, p.Delimiter) {
+		prefix = prefix[len(p.Delimiter):]
+	}
+
+	if !strings.HasPrefix(trimmed, prefix) {
+		return false
+	}
+
+	out := trimmed
+	if idx := strings.Index(trimmed[len(prefix):], p.Delimiter); idx >= 0 {
+		out = trimmed[:len(prefix)+idx+len(p.Delimiter)]
 	}
 
 	if match != nil {
